@@ -37,6 +37,13 @@ CHECKS = {
   text="Dialogues over command templates in all three states x string argument forms (quoted / sync / non-sync / literal8) x announced sizes around 4096 and the APPEND limit x server literal policies, syntax errors before literals, trailing garbage, AUTHENTICATE and IDLE exchanges, plus random multi-command dialogues. Decides: every tagged response answers a command that was really sent, exactly once; no backend call originates from payload text; output is whole well-formed lines; '+' only when a sync literal / AUTHENTICATE / IDLE waits for it; accepted literal arguments arrive byte-exact.",
   design_ref="DESIGN.md §3 C04",
   note="For a refused non-synchronising literal both RFC 7888 behaviours (discard, close) are accepted. Trusts the independent tokenizer internal/wiretok and the dialogue generator's by-construction knowledge of payload bytes."),
+
+ "C19": dict(
+  category="exploration",
+  technique="runtime oracle: SearchCriteria.And and the server's SEARCH parser evaluated with an independent reference matcher on a 400-message universe that distinguishes every field; SEARCH commands sent in every key permutation through a real server with a recording stub backend",
+  text="A: all ordered pairs from a pool of several hundred criteria (every field, boundary values, unset bounds, NOT/OR trees, multi-field) checked for match(And(a,b),m) == match(a,m) && match(b,m) on every message, operand unchanged. B: 1..5-key SEARCH commands over a 56-key alphabet in all permutations; the recorded criteria must select exactly the conjunction of the keys; malformed sub-keys must not be dropped silently.",
+  design_ref="DESIGN.md §3 C19",
+  note="Trusts internal/ref/searchref (matcher + universe); dates all UTC; ModSeq outside the property."),
 }
 
 NOT_YET = "check not built yet in this round (planned in DESIGN.md §3; runtime monitoring applies)"
